@@ -55,6 +55,12 @@ type c20Stub struct {
 	cols        []c20Col
 	constraints map[string]bool
 	indexes     map[string]bool
+	// round 5 (c20_names.go): adversarial second opinions.  hasCol: what HasColumn answers (0 = the base migrator's own
+	// answer, +1 = true, -1 = false) — AutoMigrate decides from ColumnTypes only, whatever HasColumn would say.
+	// adv (+1 / -1): EVERY Has* predicate answers true / false (used when only the statement text of a body matters).
+	hasCol int
+	adv    int
+	asked  []string // the predicates consulted while adv / hasCol was set
 }
 
 type c20Dialector struct {
@@ -125,7 +131,21 @@ func (m c20Migrator) tableOf(value interface{}) string {
 	m.RunWithValue(value, func(stmt *gorm.Statement) error { t = stmt.Table; return nil })
 	return t
 }
+func (m c20Migrator) HasColumn(value interface{}, name string) bool {
+	m.st.asked = append(m.st.asked, "HasColumn")
+	if m.st.adv != 0 {
+		return m.st.adv > 0
+	}
+	if m.st.hasCol != 0 {
+		return m.st.hasCol > 0
+	}
+	return m.Migrator.HasColumn(value, name)
+}
 func (m c20Migrator) HasTable(value interface{}) bool {
+	if m.st.adv != 0 {
+		m.st.asked = append(m.st.asked, "HasTable")
+		return m.st.adv > 0
+	}
 	if m.st.only != "" && m.tableOf(value) != m.st.only {
 		return true
 	}
@@ -154,12 +174,24 @@ func (m c20Migrator) CreateConstraint(value interface{}, name string) error {
 func (m c20Migrator) DropConstraint(value interface{}, name string) error {
 	return m.recT(value, "dropConstraint", name)
 }
-func (m c20Migrator) HasConstraint(value interface{}, name string) bool   { return m.st.constraints[name] }
+func (m c20Migrator) HasConstraint(value interface{}, name string) bool {
+	if m.st.adv != 0 {
+		m.st.asked = append(m.st.asked, "HasConstraint")
+		return m.st.adv > 0
+	}
+	return m.st.constraints[name]
+}
 func (m c20Migrator) CreateIndex(value interface{}, name string) error {
 	m.st.indexes[name] = true
 	return m.recT(value, "createIndex", name)
 }
-func (m c20Migrator) HasIndex(value interface{}, name string) bool { return m.st.indexes[name] }
+func (m c20Migrator) HasIndex(value interface{}, name string) bool {
+	if m.st.adv != 0 {
+		m.st.asked = append(m.st.asked, "HasIndex")
+		return m.st.adv > 0
+	}
+	return m.st.indexes[name]
+}
 func (m c20Migrator) ColumnTypes(value interface{}) ([]gorm.ColumnType, error) {
 	var out []gorm.ColumnType
 	for _, c := range m.st.cols {
@@ -584,6 +616,8 @@ func c20TieAuto(r *Result, rng *rand.Rand, tier string) {
 		}
 		st.calls = nil
 		st.only = "auto_items"
+		st.hasCol = i%3 - 1 // HasColumn's answer must not matter (round 5): base answer / always true / always false
+		r.H("auto.hascolumn-answer", []string{"false", "base", "true"}[st.hasCol+1])
 		if err := db.AutoMigrate(val); err != nil {
 			r.H("auto.skip", "automigrate-error")
 			continue
